@@ -336,3 +336,270 @@ Print Assumptions c06_walk_erased_outcome.
 Print Assumptions c06_walk_erased_follow_irrelevant.
 Print Assumptions c06_erase_wf_perm.
 Print Assumptions c06_walk_selection_instance.
+
+(** * globset's matcher, concretely (X13)
+
+    Everything above holds for any [gmatch]. Model/Glob.v is a concrete model of what imdl really passes:
+    globset 0.4.14 with its default options — [glob_parse] is `Glob::new` ([None] = the error that makes
+    `--glob` fail), [glob_match] is `compile_matcher().is_match` on the bytes of the path; tokens are
+    globset's `Token`s one for one. [Matches] (Proofs/GlobProofs.v) is the declarative meaning of a token
+    list: the language of the regex `to_regex_with` writes, token by token (a literal is its bytes, `?`
+    one byte, `*` any bytes, a class one byte of the set, the three recursive tokens as their regex
+    fragments say, a group some non-empty branch), anchored at both ends. The instance of [gmatch] is
+    [glob_path_match g p = glob_match g (joined p)]: the glob against the root-relative path with its
+    components joined by `/`. Pattern texts are valid UTF-8 (a Rust `&str`); paths are any bytes. *)
+From Imdl Require Import Model.Glob Proofs.GlobProofs.
+
+(** soundness and completeness of the backtracking matcher: every token list, every text; no fuel *)
+Check glob_match_iff : forall ts s, glob_match ts s = true <-> Matches ts s.
+Theorem c06_glob_match_decides : forall ts s, glob_match ts s = true <-> Matches ts s.
+Proof. exact glob_match_iff. Qed.
+
+(** the parser's fuel suffices for every text: `Glob::new` is modelled everywhere, and [glob_parse] is
+    [None] exactly when the parser reports one of globset's errors *)
+Check parse_fuel_suffices : forall text, exists r, glob_parse_result text = Some r.
+Theorem c06_glob_parse_fuel_suffices : forall text, exists r, glob_parse_result text = Some r.
+Proof. exact parse_fuel_suffices. Qed.
+
+Theorem c06_glob_parse_none_is_error :
+  forall text, glob_parse text = None <-> exists e, glob_parse_result text = Some (PErr e).
+Proof. exact glob_parse_none_is_error. Qed.
+
+(** a pattern without metacharacters matches exactly itself, anchored at both ends *)
+Check plain_pattern_matches_itself : forall p, no_meta p = true ->
+  glob_parse p = Some (lits p) /\ forall s, glob_match (lits p) s = true <-> s = p.
+Theorem c06_glob_plain_pattern : forall p, no_meta p = true ->
+  glob_parse p = Some (lits p) /\ forall s, glob_match (lits p) s = true <-> s = p.
+Proof. exact plain_pattern_matches_itself. Qed.
+
+Theorem c06_glob_anchored : forall p x y, no_meta p = true ->
+  glob_match (lits p) (x ++ p ++ y) = true -> x = [] /\ y = [].
+Proof. exact plain_pattern_anchored. Qed.
+
+(** `*` matches every path, `/` included; `?` exactly one byte; `**` everything *)
+Check star_matches_everything : glob_parse [42] = Some [TAtom AStar] /\ forall s, glob_match [TAtom AStar] s = true.
+Theorem c06_glob_star : glob_parse [42] = Some [TAtom AStar] /\ forall s, glob_match [TAtom AStar] s = true.
+Proof. exact star_matches_everything. Qed.
+
+Theorem c06_glob_question :
+  glob_parse [63] = Some [TAtom AAny] /\ forall s, glob_match [TAtom AAny] s = true <-> exists b, s = [b].
+Proof. exact question_matches_one_byte. Qed.
+
+Theorem c06_glob_starstar :
+  glob_parse [42; 42] = Some [TAtom ARecPre] /\ glob_parse [42; 42; 47] = Some [TAtom ARecPre] /\
+  glob_parse [42; 42; 47; 42; 42] = Some [TAtom ARecPre] /\ forall s, glob_match [TAtom ARecPre] s = true.
+Proof. exact starstar_matches_everything. Qed.
+
+(** `p*` = the texts with prefix p; `*s` = the texts with suffix s; `*.ext` *)
+Check prefix_pattern : forall p, no_meta p = true ->
+  glob_parse (p ++ [42]) = Some (lits p ++ [TAtom AStar]) /\
+  forall s, glob_match (lits p ++ [TAtom AStar]) s = true <-> exists w, s = p ++ w.
+Theorem c06_glob_prefix : forall p, no_meta p = true ->
+  glob_parse (p ++ [42]) = Some (lits p ++ [TAtom AStar]) /\
+  forall s, glob_match (lits p ++ [TAtom AStar]) s = true <-> exists w, s = p ++ w.
+Proof. exact prefix_pattern. Qed.
+
+Check suffix_pattern : forall q, no_meta q = true ->
+  glob_parse (42 :: q) = Some (TAtom AStar :: lits q) /\
+  forall s, glob_match (TAtom AStar :: lits q) s = true <-> exists w, s = w ++ q.
+Theorem c06_glob_suffix : forall q, no_meta q = true ->
+  glob_parse (42 :: q) = Some (TAtom AStar :: lits q) /\
+  forall s, glob_match (TAtom AStar :: lits q) s = true <-> exists w, s = w ++ q.
+Proof. exact suffix_pattern. Qed.
+
+Theorem c06_glob_extension : forall ext, no_meta ext = true ->
+  glob_parse (42 :: 46 :: ext) = Some (TAtom AStar :: lits (46 :: ext)) /\
+  forall s, glob_match (TAtom AStar :: lits (46 :: ext)) s = true <-> exists w, s = w ++ 46 :: ext.
+Proof. exact extension_pattern. Qed.
+
+(** `dir/**` = exactly the paths below dir; `**/name` = name at any depth *)
+Check below_dir_pattern : forall d, no_meta d = true ->
+  glob_parse (d ++ [47; 42; 42]) = Some (lits d ++ [TAtom ARecSuf]) /\
+  forall s, glob_match (lits d ++ [TAtom ARecSuf]) s = true <-> exists w, s = d ++ 47 :: w.
+Theorem c06_glob_below_dir : forall d, no_meta d = true ->
+  glob_parse (d ++ [47; 42; 42]) = Some (lits d ++ [TAtom ARecSuf]) /\
+  forall s, glob_match (lits d ++ [TAtom ARecSuf]) s = true <-> exists w, s = d ++ 47 :: w.
+Proof. exact below_dir_pattern. Qed.
+
+Check any_depth_pattern : forall n, no_meta n = true -> n <> [] ->
+  glob_parse (42 :: 42 :: 47 :: n) = Some (TAtom ARecPre :: lits n) /\
+  forall s, glob_match (TAtom ARecPre :: lits n) s = true <-> s = n \/ exists w, s = w ++ 47 :: n.
+Theorem c06_glob_any_depth : forall n, no_meta n = true -> n <> [] ->
+  glob_parse (42 :: 42 :: 47 :: n) = Some (TAtom ARecPre :: lits n) /\
+  forall s, glob_match (TAtom ARecPre :: lits n) s = true <-> s = n \/ exists w, s = w ++ 47 :: n.
+Proof. exact any_depth_pattern. Qed.
+
+(** a class is one byte of the set; an ASCII range is the byte interval *)
+Theorem c06_glob_class_range : forall b l h, range_has b ([l], [h]) = (l <=? b) && (b <=? h).
+Proof. exact range_has_ascii. Qed.
+
+Theorem c06_glob_class_example :
+  glob_parse [91; 97; 45; 99; 93] = Some [TAtom (AClass false [([97], [99])])] /\
+  forall s, glob_match [TAtom (AClass false [([97], [99])])] s = true <-> exists b, s = [b] /\ 97 <= b <= 99.
+Proof. exact class_pattern_example. Qed.
+
+(** the hypotheses are satisfiable, non-trivially: the statements above at `src/lib.rs`, `src/` `*`, `*.txt`,
+    `src/**`, `**/lib.rs`, with what the parser and the matcher compute *)
+Example c06_glob_instances :
+  no_meta (nm "src/lib.rs") = true /\ no_meta (nm ".txt") = true /\ nm "lib.rs" <> [] /\
+  glob_parse (nm "*.txt") = Some (TAtom AStar :: lits (nm ".txt")) /\
+  glob_path_match (TAtom AStar :: lits (nm ".txt")) [nm "a"; nm "b.txt"] = true /\
+  glob_path_match (TAtom AStar :: lits (nm ".txt")) [nm "b.txt.bak"] = false /\
+  glob_parse (nm "src/**") = Some (lits (nm "src") ++ [TAtom ARecSuf]) /\
+  glob_path_match (lits (nm "src") ++ [TAtom ARecSuf]) [nm "src"; nm "a"; nm "b"] = true /\
+  glob_path_match (lits (nm "src") ++ [TAtom ARecSuf]) [nm "src"] = false /\
+  glob_path_match (lits (nm "src") ++ [TAtom ARecSuf]) [nm "srcs"; nm "a"] = false /\
+  glob_parse (nm "**/lib.rs") = Some (TAtom ARecPre :: lits (nm "lib.rs")) /\
+  glob_path_match (TAtom ARecPre :: lits (nm "lib.rs")) [nm "lib.rs"] = true /\
+  glob_path_match (TAtom ARecPre :: lits (nm "lib.rs")) [nm "a"; nm "b"; nm "lib.rs"] = true /\
+  glob_path_match (TAtom ARecPre :: lits (nm "lib.rs")) [nm "a"; nm "xlib.rs"] = false.
+Proof. vm_compute. repeat split; try reflexivity. intros H; discriminate H. Qed.
+
+(** groups, escapes, the recursive infix, classes with `]` first and negation, as the parser reads them *)
+Example c06_glob_syntax_instances :
+  glob_parse (nm "{a,b}") = Some [TAlt [[ALit [98]]; [ALit [97]]]] /\
+  glob_match [TAlt [[ALit [98]]; [ALit [97]]]] (nm "a") = true /\
+  glob_match [TAlt [[ALit [98]]; [ALit [97]]]] (nm "ab") = false /\
+  glob_parse (nm "a/**/b") = Some [TAtom (ALit [97]); TAtom ARecMid; TAtom (ALit [98])] /\
+  glob_path_match [TAtom (ALit [97]); TAtom ARecMid; TAtom (ALit [98])] [nm "a"; nm "b"] = true /\
+  glob_path_match [TAtom (ALit [97]); TAtom ARecMid; TAtom (ALit [98])] [nm "a"; nm "x"; nm "y"; nm "b"] = true /\
+  glob_path_match [TAtom (ALit [97]); TAtom ARecMid; TAtom (ALit [98])] [nm "ab"] = false /\
+  glob_parse (nm "\*[]a][!x-z]") =
+    Some [TAtom (ALit [42]); TAtom (AClass false [([93], [93]); ([97], [97])]); TAtom (AClass true [([120], [122])])] /\
+  glob_parse (nm "a**b") = Some [TAtom (ALit [97]); TAtom AStar; TAtom AStar; TAtom (ALit [98])] /\
+  glob_parse (nm "a/**/**") = Some [TAtom (ALit [97]); TAtom ARecSuf].
+Proof. vm_compute. repeat split. Qed.
+
+(** what `Glob::new` refuses: unclosed class, reversed range, unclosed group, nested group, dangling `\` *)
+Example c06_glob_errors :
+  glob_parse_result (nm "[ab") = Some (PErr EUnclosedClass) /\
+  glob_parse_result (nm "[]") = Some (PErr EUnclosedClass) /\
+  glob_parse_result (nm "[z-a]") = Some (PErr EInvalidRange) /\
+  glob_parse_result (nm "{a,b") = Some (PErr EUnclosedAlternates) /\
+  glob_parse_result (nm "{a,{b}}") = Some (PErr ENestedAlternates) /\
+  glob_parse_result (nm "ab\") = Some (PErr EDanglingEscape).
+Proof. vm_compute. repeat split. Qed.
+
+(** three things the library does that its documentation does not say (witnesses; each is replayed on the
+    real library by the correspondence run):
+    - a `}` without a `{` is NOT an error (`ErrorKind::UnopenedAlternates` is never raised): it is read as
+      a group without branches, which matches the empty string, so `a}` is the glob `a`;
+    - `?` and a class match one BYTE, not one character: `?` does not match `é` (C3 A9), `??` does, and
+      `[é]` is the two-byte set {C3, A9};
+    - inside a group, `**` after an escaped `,` takes the comma back: `{a\,**}` is `{a/**}`. *)
+Example c06_glob_undocumented_behaviour :
+  glob_parse (nm "a}") = Some [TAtom (ALit [97]); TAlt []] /\
+  glob_match [TAtom (ALit [97]); TAlt []] (nm "a") = true /\
+  glob_match [TAtom (ALit [97]); TAlt []] (nm "a}") = false /\
+  glob_match [TAtom AAny] [195; 169] = false /\ glob_match [TAtom AAny; TAtom AAny] [195; 169] = true /\
+  glob_parse [91; 195; 169; 93] = Some [TAtom (AClass false [([195; 169], [195; 169])])] /\
+  glob_match [TAtom (AClass false [([195; 169], [195; 169])])] [195; 169] = false /\
+  glob_match [TAtom (AClass false [([195; 169], [195; 169])])] [169] = true /\
+  glob_parse (nm "{a\,**}") = Some [TAlt [[ALit [97]; ARecSuf]]] /\
+  glob_match [TAlt [[ALit [97]; ARecSuf]]] (nm "a/x") = true /\
+  glob_match [TAlt [[ALit [97]; ARecSuf]]] (nm "a,x") = false.
+Proof. vm_compute. repeat split. Qed.
+
+(** glob precedence with the concrete matcher and its declarative meaning *)
+Check glob_precedence : forall p : list (list N),
+  pattern_filter (list token) glob_path_match [] p = true /\
+  (forall before inc g after,
+      Matches g (joined p) -> (forall q, In q after -> ~ Matches (snd q) (joined p)) ->
+      pattern_filter (list token) glob_path_match (before ++ (inc, g) :: after) p = inc) /\
+  (forall inc0 g0 rest,
+      (forall q, In q ((inc0, g0) :: rest) -> ~ Matches (snd q) (joined p)) ->
+      pattern_filter (list token) glob_path_match ((inc0, g0) :: rest) p = negb inc0).
+Theorem c06_glob_precedence : forall p : list (list N),
+  pattern_filter (list token) glob_path_match [] p = true /\
+  (forall before inc g after,
+      Matches g (joined p) -> (forall q, In q after -> ~ Matches (snd q) (joined p)) ->
+      pattern_filter (list token) glob_path_match (before ++ (inc, g) :: after) p = inc) /\
+  (forall inc0 g0 rest,
+      (forall q, In q ((inc0, g0) :: rest) -> ~ Matches (snd q) (joined p)) ->
+      pattern_filter (list token) glob_path_match ((inc0, g0) :: rest) p = negb inc0).
+Proof. exact glob_precedence. Qed.
+
+(** with globs g1..gn the file at root-relative path p passes the glob rule iff the LAST gi with
+    [Matches gi p] is an including glob, or none matches and there is no glob or g1 is an excluding one *)
+Check glob_filter_decides : forall gs (p : list (list N)),
+  pattern_filter (list token) glob_path_match gs p = true <->
+  (exists before g after, gs = before ++ (true, g) :: after /\ Matches g (joined p) /\
+                          forall q, In q after -> ~ Matches (snd q) (joined p)) \/
+  ((forall q, In q gs -> ~ Matches (snd q) (joined p)) /\ (gs = [] \/ exists g0 rest, gs = (false, g0) :: rest)).
+Theorem c06_glob_filter_decides : forall gs (p : list (list N)),
+  pattern_filter (list token) glob_path_match gs p = true <->
+  (exists before g after, gs = before ++ (true, g) :: after /\ Matches g (joined p) /\
+                          forall q, In q after -> ~ Matches (snd q) (joined p)) \/
+  ((forall q, In q gs -> ~ Matches (snd q) (joined p)) /\ (gs = [] \/ exists g0 rest, gs = (false, g0) :: rest)).
+Proof. exact glob_filter_decides. Qed.
+
+(** `--glob '*'` alone includes every file, `--glob '!*'` alone excludes every file *)
+Check star_glob_alone :
+  glob_args [[42]] = Some [(true, [TAtom AStar])] /\ glob_args [[33; 42]] = Some [(false, [TAtom AStar])] /\
+  (forall p, pattern_filter (list token) glob_path_match [(true, [TAtom AStar])] p = true) /\
+  (forall p, pattern_filter (list token) glob_path_match [(false, [TAtom AStar])] p = false) /\
+  (forall s, glob_filter [[42]] s = Some true) /\ (forall s, glob_filter [[33; 42]] s = Some false).
+Theorem c06_star_glob_alone :
+  glob_args [[42]] = Some [(true, [TAtom AStar])] /\ glob_args [[33; 42]] = Some [(false, [TAtom AStar])] /\
+  (forall p, pattern_filter (list token) glob_path_match [(true, [TAtom AStar])] p = true) /\
+  (forall p, pattern_filter (list token) glob_path_match [(false, [TAtom AStar])] p = false) /\
+  (forall s, glob_filter [[42]] s = Some true) /\ (forall s, glob_filter [[33; 42]] s = Some false).
+Proof. exact star_glob_alone. Qed.
+
+Theorem c06_star_glob_in_walk : forall (c : cfg (list token)) e,
+  (patterns c = [(true, [TAtom AStar])] ->
+   included (list token) glob_path_match c e = no_hidden (list token) c (fst e) && junk_ok (list token) c (fst e)) /\
+  (patterns c = [(false, [TAtom AStar])] -> included (list token) glob_path_match c e = false).
+Proof. exact star_glob_in_walk. Qed.
+
+(** the refinement theorem at the concrete matcher: what `torrent create` lists, with real globs *)
+Theorem c06_walk_refines_spec_globs : forall (c : cfg (list token)) root es,
+  (follow_symlinks c = true \/ is_symlink root = false) ->
+  resolve root = WDir es -> walk_error (list token) c (WDir es) = false ->
+  walk_globs c root =
+  WalkListing (isort (leb (sort_by c)) (filter (included (list token) glob_path_match c) (all_files (list token) c (WDir es)))).
+Proof. exact (walk_refines_spec (list token) glob_path_match). Qed.
+
+(** instance: --glob '*.txt' --glob '!a*' --glob 'a/keep.txt' on three paths and a path no glob matches *)
+Example c06_glob_filter_instance :
+  let args := [nm "*.txt"; nm "!a*"; nm "a/keep.txt"] in
+  glob_filter args (nm "b/x.txt") = Some true /\ glob_filter args (nm "a/x.txt") = Some false /\
+  glob_filter args (nm "a/keep.txt") = Some true /\ glob_filter args (nm "b/x.rs") = Some false /\
+  glob_filter [nm "!*.bak"] (nm "b/x.rs") = Some true /\ glob_filter [nm "*.txt"; nm "[z-a]"] (nm "x") = None.
+Proof. vm_compute. repeat split. Qed.
+
+(** instance of the walk with real globs: the sample tree, hidden and junk files included, links followed,
+    --glob '**/x' --glob '!.h/**' *)
+Example c06_walk_globs_instance :
+  glob_args [nm "**/x"; nm "!.h/**"] =
+    Some [(true, TAtom ARecPre :: lits (nm "x")); (false, lits (nm ".h") ++ [TAtom ARecSuf])] /\
+  walk_globs (Build_cfg true true true [(true, TAtom ARecPre :: lits (nm "x")); (false, lits (nm ".h") ++ [TAtom ARecSuf])] [])
+             sample_tree = WalkListing [([nm "a"; nm "x"], 2)].
+Proof. vm_compute. repeat split. Qed.
+
+Print Assumptions c06_glob_match_decides.
+Print Assumptions c06_glob_parse_fuel_suffices.
+Print Assumptions c06_glob_parse_none_is_error.
+Print Assumptions c06_glob_plain_pattern.
+Print Assumptions c06_glob_anchored.
+Print Assumptions c06_glob_star.
+Print Assumptions c06_glob_question.
+Print Assumptions c06_glob_starstar.
+Print Assumptions c06_glob_prefix.
+Print Assumptions c06_glob_suffix.
+Print Assumptions c06_glob_extension.
+Print Assumptions c06_glob_below_dir.
+Print Assumptions c06_glob_any_depth.
+Print Assumptions c06_glob_class_range.
+Print Assumptions c06_glob_class_example.
+Print Assumptions c06_glob_instances.
+Print Assumptions c06_glob_syntax_instances.
+Print Assumptions c06_glob_errors.
+Print Assumptions c06_glob_undocumented_behaviour.
+Print Assumptions c06_glob_precedence.
+Print Assumptions c06_glob_filter_decides.
+Print Assumptions c06_star_glob_alone.
+Print Assumptions c06_star_glob_in_walk.
+Print Assumptions c06_walk_refines_spec_globs.
+Print Assumptions c06_glob_filter_instance.
+Print Assumptions c06_walk_globs_instance.
